@@ -781,8 +781,8 @@ def decode_load(r):
         for mp, n, views in r[6]:
             alts[(mp, n)] = [["unresolved"] if v[0] == "unresolved" else [v[0], v[1]] for v in views]
         return {"error": None, "modules": decode_model_table(r[1]), "f1": list(r[2]), "f3": [list(x) for x in r[3]], "unsupported": bool(r[4]),
-                "dropped": [list(x) for x in r[5]], "alts": alts}
-    base = {"modules": {}, "f1": [], "f3": [], "dropped": [], "alts": {}}
+                "dropped": [list(x) for x in r[5]], "alts": alts, "xpending": [list(x) for x in r[7]], "special": [list(x) for x in r[8]]}
+    base = {"modules": {}, "f1": [], "f3": [], "dropped": [], "alts": {}, "xpending": [], "special": []}
     if r[0] == "crash":
         return dict(base, error=r[1], unsupported=False)
     return dict(base, error="model:" + str(r[0]), unsupported=True)
@@ -920,6 +920,22 @@ def witness_packages():
         _m(["wf8", "m2"], False, [["star", ["wf8", "m1"], "abs"]]),
         _m(["wf8", "m3"], False, [["star", ["wf8", "m0"], "abs"], ["from", ["wf8", "m2"], "m0", "w0", "abs"],
                                   ["setall", "list", [["attr", "w0", "list"], ["s", "m0"]]]])]}
+    # F9: the submodule special case skips an overwrite but keeps the older line number
+    W["C05-F9"] = {"name": "wf9", "order": ["wf9", "wf9.a", "wf9.x", "wf9.y", "wf9.c"], "modules": [
+        _m(["wf9"], True, []),
+        _m(["wf9", "a"], False, [["def", "g", "func"]]),
+        _m(["wf9", "x"], False, [["import", ["wf9", "a"], "f"]]),
+        _m(["wf9", "y"], False, [["def", "f", "func"]]),
+        _m(["wf9", "c"], False, [["import", ["wf9", "a"], "f"], ["star", ["wf9", "x"], "abs"], ["star", ["wf9", "y"], "abs"],
+                                 ["star", ["wf9", "x"], "abs"]])]}
+    # F10: expand_exports visits a package's submodules from within the expansion of a module that names the package
+    W["C05-F10"] = {"name": "wf10", "order": ["wf10.s", "wf10.m1", "wf10", "wf10.s.n1"], "modules": [
+        _m(["wf10"], True, [["star", ["wf10", "m1"], "rel"], ["from", ["wf10"], "m1", "w0", "rel"], ["setall", "list", [["attr", "w0", "list"]]]]),
+        _m(["wf10", "m1"], False, [["star", ["wf10", "s"], "rel"], ["import", ["wf10", "s"], "w1"],
+                                   ["setall", "list", [["attr", "w1", "list"], ["s", "g"]]], ["def", "g", "func"]]),
+        _m(["wf10", "s"], True, [["setall", "list", [["s", "h"]]], ["def", "h", "func"]]),
+        _m(["wf10", "s", "n1"], False, [["star", ["wf10", "m1"], "rel"], ["import", ["wf10", "m1"], "w2"],
+                                        ["setall", "list", [["attr", "w2", "list"]]]])]}
     return W
 
 
@@ -935,6 +951,8 @@ def f5_signature(x, oracle):
     """[module, name, griffe, cpython]: CPython sees a submodule bound on a star-imported package that has no __all__; Griffe has no such name
     (or an alias that cannot resolve because the name it imports is such a submodule attribute)."""
     _, n, g, o = x
+    if n in ("__all__", "<module>", "") or not isinstance(o, list) or not o:
+        return False
     if o is None or o[0] != "module" or (g is not None and g[0] != "unresolved"):
         return False
     parent, _, last = o[1].rpartition(".")
@@ -968,6 +986,8 @@ def classify(pkg, view, oracle, ml, ms_view, dmi, leak):
             # the dependency-order schedule of the same per-module rules differs from CPython in the same way
             if f5_signature(x, oracle):
                 out.append((x, "C05-F5"))
+            elif ml["special"] and not dmi:
+                out.append((x, "C05-F9"))
             elif ext and not dmi:
                 out.append((x, "C05-F6"))
             elif same_line and not dmi:
@@ -978,9 +998,10 @@ def classify(pkg, view, oracle, ml, ms_view, dmi, leak):
             # only the real traversal order is wrong: explained when the model predicts the result and reports the gap event
             if leak and ml["f3"]:
                 out.append((x, "C05-F3"))
-            elif not dmi and (ml["f3"] or ml["dropped"] or ml["f1"]):
-                out.append((x, "C05-F3" if ml["f3"] and not (ml["f1"] or ml["dropped"]) else "C05-F8" if ml["dropped"] and not ml["f1"] else
-                            "C05-F1" if ml["f1"] and not ml["f3"] else "C05-F3"))
+            elif not dmi and (ml["f3"] or ml["dropped"] or ml["f1"] or ml["xpending"]):
+                only = lambda k: ml[k] and not any(ml[o] for o in ("f1", "f3", "dropped", "xpending") if o != k)
+                out.append((x, "C05-F3" if only("f3") else "C05-F8" if only("dropped") else "C05-F10" if only("xpending") else
+                            "C05-F1" if ml["f1"] else "C05-F3" if ml["f3"] else "C05-F10" if ml["xpending"] else "C05-F8"))
             else:
                 out.append((x, None))
     return out
@@ -1091,7 +1112,8 @@ def check_packages(ctx, pkgs, stream, direct=True):
         ctx.case({"sources": case["sources"]}, nontrivial)
         # ---- (C) faithful model vs implementation (needs no interpreter: also run on packages the interpreter rejects)
         ctx.observe("model_outcome", "crash:" + ml["error"] if ml["error"] else "f1+f3" if ml["f1"] and ml["f3"] else "f1" if ml["f1"] else
-                    "f3-leak" if ml["f3"] and leak else "f3" if ml["f3"] else "clean")
+                    "f3-leak" if ml["f3"] and leak else "f3" if ml["f3"] else "f8-dropped" if ml["dropped"] else
+                    "f10-exports-pending" if ml["xpending"] else "f9-special" if ml["special"] else "f7-replaced-alias" if ml["alts"] else "clean")
         if ml["error"] and ml["error"].startswith("model:"):
             ctx.tie_failure("harness", "the model ran out of fuel or rejected its input", ml["error"], case)
             dmi = []
@@ -1110,7 +1132,7 @@ def check_packages(ctx, pkgs, stream, direct=True):
             if dmi:
                 ctx.tie_failure("correspondence", "griffe_load(model) vs griffe.load", {"diffs": dmi[:6], "model_flags": [ml["f1"], ml["f3"]]}, case)
         # the unproved link between the real traversal and the dependency-order schedule, checked on every clean run
-        if direct and not ml["error"] and not ml["f1"] and not ml["f3"] and not ml["dropped"] and not ml["unsupported"]:
+        if direct and not ml["error"] and not ml["f1"] and not ml["f3"] and not ml["dropped"] and not ml["xpending"] and not ml["unsupported"]:
             if ml["modules"] != ms_view and (a["error"] is None and not a["flags"]):
                 ctx.tie_failure("correspondence", "griffe_load(model) vs griffe_sched(model) on a run without gap events",
                                 {"real": ml["modules"], "sched": ms_view}, case)
@@ -1174,7 +1196,7 @@ def replay_witnesses(ctx):
             if dmi:
                 ctx.tie_failure("correspondence", f"model vs implementation on the witness of {fid}", dmi[:4], {"sources": package_sources(pkg)})
             flags = {"C05-F1": bool(ml["f1"]), "C05-F2": ml["error"] == "AttributeError", "C05-F3": bool(ml["f3"]),
-                     "C05-F7": bool(ml["alts"]), "C05-F8": bool(ml["dropped"])}
+                     "C05-F7": bool(ml["alts"]), "C05-F8": bool(ml["dropped"]), "C05-F9": bool(ml["special"]), "C05-F10": bool(ml["xpending"])}
             if fid in flags and not flags[fid]:
                 ctx.tie_failure("correspondence", f"model does not report the gap event of {fid} on its witness", ml, {"sources": package_sources(pkg)})
 
@@ -1210,7 +1232,7 @@ def search(ctx):
     """A tie broke and no failing input is known: implementation vs interpreter only, on a larger budget; a difference counts as
     known only by its signature (F5) or when the package has the structural trigger of F1/F2/F3 (Python mirror of the gap predicates)."""
     k = 0
-    while ctx.elapsed() < 600 and k < 20000:
+    while ctx.elapsed() < 420 and k < 12000:
         pkgs = [gen_package(ctx.rng, f"s{k + j}", rich=(j % 2 == 0)) for j in range(300)]
         k += 300
         root = ctx.scratch / f"search-{k}"
@@ -1236,6 +1258,8 @@ def search(ctx):
                     continue
                 if not view["error"] and (trig["f1"] or trig["f3"]):
                     continue
+                if not view["error"] and trig["f7"] and x[2] is not None and x[3] is not None and x[1] != "__all__":
+                    continue
                 ctx.property_failure({"package": pkg["name"], "order": pkg["order"], "sources": package_sources(pkg), "abstract": pkg["modules"]},
                                      {"module": x[0], "name": x[1], "griffe": x[2], "cpython": x[3]}, None)
                 return
@@ -1251,7 +1275,9 @@ def py_triggers(pkg):
     stars = {p: [tuple(st[1]) for _, st in stmt_tags({"modules": [m]}) if st[0] == "star"] for p, m in mods.items()}
     f3 = any(stars[t] for p in mods for t in stars[p] if t in mods)      # a wildcard import of a module that has wildcard imports of its own
     f2 = any(refs.values())
-    return {"f1": f1, "f2": f2, "f3": f3}
+    # an explicitly imported name may be re-bound by a wildcard import of the same module (replaced alias member: F7, F9)
+    f7 = any(stars[p] and any(st[0] in ("from", "import") for _, st in stmt_tags({"modules": [m]})) for p, m in mods.items())
+    return {"f1": f1, "f2": f2, "f3": f3, "f7": f7}
 
 
 def replay(ctx, data):
